@@ -77,7 +77,18 @@ def check(tier):
                     continue
                 v = st.value
                 if isinstance(v, ast.Call) and not (isinstance(v.func, ast.Attribute) and isinstance(v.func.value, ast.Name) and v.func.value.id == vp):
-                    compacted = compacted or 'compact' in src_(v.func) or 'clean' in src_(v.func)
+                    # compact(number).upper(): a case mapping (or another rewrite) on top of compact() that compact() itself does not do
+                    layers, root = [], v
+                    while isinstance(root, ast.Call) and isinstance(root.func, ast.Attribute) and isinstance(root.func.value, ast.Call):
+                        layers.append(root.func.attr)
+                        root = root.func.value
+                    if layers and isinstance(root, ast.Call) and src_(root.func) == 'compact' and isinstance(own, tuple) and len(own) > 2:
+                        extra = [l_ for l_ in layers if l_ in ('upper', 'lower', 'replace', 'lstrip', 'rstrip', 'zfill', 'swapcase', 'title') and l_ not in own[2]]
+                        if extra:
+                            rep.fail('C04.validate-normal-form', rel(prog.mods[rv[1]].path), 'validate', src_(st)[:120], st.lineno,
+                                     'validate() applies .%s() on top of compact(), which compact() itself does not do: format() starts from compact(x), so for '
+                                     'an input that needs this rewrite format(x) is built from other characters than validate(x)' % extra[0])
+                    compacted = compacted or 'compact' in src_(v.func) or 'clean' in src_(v.func) or (isinstance(root, ast.Call) and src_(root.func) == 'compact')
                     continue            # compact(...), another module's validate(...): results in compact form
                 reads_self = any(isinstance(x, ast.Name) and x.id == vp for x in ast.walk(v))
                 under_option = False
